@@ -15,8 +15,9 @@
 (*   UBegin     the upload request reaches the bucket (body = what was     *)
 (*              read)                                                      *)
 (*   UEnd(ok)   the bucket answers, or the request fails / the client gives *)
-(*              up on a stalled one / it is cancelled; success records the *)
-(*              generation read by Check as covered                        *)
+(*              up on a stalled one / it is cancelled; success records as  *)
+(*              covered the generation read by Check (the pinned code) or  *)
+(*              any later one up to the generation of the file it read     *)
 (*   WaitOver   at least a minute has passed since the wait began (the     *)
 (*              pinned code wakes after exactly one; an implementation may *)
 (*              wait longer, e.g. back off after failures -- C17 says "at  *)
@@ -93,7 +94,7 @@ UEnd(ok) ==
   /\ (ok => (s3 = "ok" /\ ~MustFail))
   /\ (~ok => (s3 = "fail" \/ s3 = "hold" \/ MustFail))     \* a stalled request fails whenever the client gives up on it
   /\ ups' = [ups EXCEPT ![Len(ups)].ok = IF ok THEN "ok" ELSE "fail"]
-  /\ last' = IF ok THEN cur.g ELSE last
+  /\ IF ok THEN last' \in {g \in cur.g..cur.body : TRUE} ELSE last' = last        \* at least what Check saw, at most what was read
   /\ pc' = "wait" /\ until' = now + Minute
   /\ out' = Event("uend", [ok |-> ok])
   /\ UNCHANGED <<gen, cur, s3, cancelled, now, quiet>>
@@ -153,7 +154,7 @@ RateLimit == \A i \in DOMAIN ups : i > 1 => ups[i].at - ups[i - 1].at >= Minute
 \* before any time passes
 Quiescent == [][(now' > now) => (pc \in {"wait", "upload", "exited"} /\ (cancelled => pc = "exited"))]_vars
 \* success covers exactly what Check saw: a write racing the upload is not marked as backed up
-CoverExact == [][(out'.ev = "uend" /\ out'.ok) => (last' = cur.g /\ last' <= cur.body)]_vars
+CoverExact == [][(out'.ev = "uend" /\ out'.ok) => (last' >= cur.g /\ last' <= cur.body)]_vars
 \* a failed upload is retried and, once writes stop, the newest backup equals the current file: as a state
 \* predicate -- when the database and a healthy bucket have been left alone for more than two minutes, the
 \* last successful upload covers the current file
